@@ -72,6 +72,14 @@ type request struct {
 	taints     bool   // leaves a stream connection in an undefined state
 	sentinel   bool
 
+	// HTTP, any two-way kind: the caller announces a response limit L which this
+	// request's reply FITS.  limitFill in (0.5, 1] is the share of L the reply
+	// (frame plus its 4 size bytes) takes up; L itself is derived from the size
+	// of the reply the server gives to the same frame posted without a limit
+	// (unlimitedLen, measured in the run, see limitFor)
+	limitFill    float64
+	unlimitedLen int
+
 	expType   thrift.TMessageType // REPLY or EXCEPTION
 	expExType int32
 	expBody   *wire.Value // expected result struct of a REPLY
